@@ -2,6 +2,8 @@ package np
 
 import (
 	"fmt"
+	"go/token"
+	"go/types"
 	"sort"
 	"strings"
 
@@ -353,4 +355,107 @@ func (c *Ctx) CheckTable(rule string, fn *ssa.Function, atoms []string, spec fun
 		key := name + "/row:" + strings.Join(desc, ",")
 		c.Check(got == exp, rule, key, pos, "returns "+got, "returns "+got+", specified "+exp)
 	}
+}
+
+// ---------------------------------------------------------------- atomic-only access
+
+// AtomicOnly checks that every access to field typ.field in the module is
+// the field's address passed as first argument to a sync/atomic function.
+// plain maps a function name to the reason a plain access there is fine
+// (constructor before publication). Returns the number of atomic sites.
+func (c *Ctx) AtomicOnly(rule, typ, field string, plain map[string]string) int {
+	n := 0
+	usedPlain := map[string]bool{}
+	for _, fn := range c.P.Funcs {
+		for _, fa := range FieldAccesses(fn) {
+			if fa.Field.Name() != field || !typeNamed(fa.Base.Type(), typ) {
+				continue
+			}
+			fname := FuncName(fn)
+			key := typ + "." + field + "/in:" + fname
+			if why, ok := plain[fname]; ok {
+				if !usedPlain[fname] {
+					c.Assume(rule, key, c.pos(fa.Instr), "plain access allowed: "+why)
+					usedPlain[fname] = true
+				}
+				continue
+			}
+			ok := false
+			if fa.AddrTaken {
+				if ci, isCall := fa.Instr.(ssa.CallInstruction); isCall {
+					cn := CalleeName(ci)
+					args := CallArgs(ci)
+					if strings.HasPrefix(cn, "sync/atomic.") && len(args) > 0 && args[0] == fa.Addr {
+						ok = true
+					}
+				}
+			}
+			if ok {
+				n++
+				c.Ok(rule, key+"/"+strings.TrimPrefix(CalleeName(fa.Instr.(ssa.CallInstruction)), "sync/atomic."), c.pos(fa.Instr), "atomic access")
+			} else {
+				kind := "read"
+				if fa.Write {
+					kind = "write"
+				} else if fa.AddrTaken {
+					kind = "address escapes"
+				}
+				c.Bad(rule, key+"/plain-"+kind, c.pos(fa.Instr), "non-atomic access ("+kind+") to "+typ+"."+field+": races with the atomic operations on it")
+			}
+		}
+	}
+	return n
+}
+
+// BlockingOps lists the operations in fn (and, transitively through static
+// callees inside the module, up to depth) that may block the goroutine:
+// channel receive, blocking send, blocking select, range over channel,
+// sync Lock/RLock/Wait, time.Sleep, runtime park hooks.
+func (c *Ctx) BlockingOps(fn *ssa.Function, depth int) []string {
+	var out []string
+	seen := map[*ssa.Function]bool{}
+	var walk func(f *ssa.Function, d int, via string)
+	walk = func(f *ssa.Function, d int, via string) {
+		if seen[f] || f.Blocks == nil {
+			return
+		}
+		seen[f] = true
+		Instrs(f, func(in ssa.Instruction) {
+			switch x := in.(type) {
+			case *ssa.UnOp:
+				if x.Op == token.ARROW {
+					out = append(out, via+"recv "+Term(x.X))
+				}
+			case *ssa.Send:
+				out = append(out, via+"send "+Term(x.Chan))
+			case *ssa.Select:
+				if x.Blocking {
+					out = append(out, via+"blocking select")
+				}
+			case *ssa.Next:
+				if _, isChan := x.Iter.Type().Underlying().(*types.Chan); isChan {
+					out = append(out, via+"range chan")
+				}
+			case ssa.CallInstruction:
+				if _, isGo := x.(*ssa.Go); isGo {
+					return
+				}
+				cn := CalleeName(x)
+				switch {
+				case cn == "(*sync.Mutex).Lock", cn == "(*sync.RWMutex).Lock", cn == "(*sync.RWMutex).RLock",
+					cn == "(*sync.WaitGroup).Wait", cn == "(*sync.Cond).Wait", cn == "time.Sleep",
+					strings.HasSuffix(cn, ".gopark"), cn == "(*tmutex.Mutex).Lock", cn == "(*sleep.Sleeper).Fetch":
+					out = append(out, via+"call "+cn)
+				default:
+					if cal := x.Common().StaticCallee(); cal != nil && d > 0 && c.P.IsModuleFunc(cal) {
+						walk(cal, d-1, via+FuncName(cal)+": ")
+					} else if x.Common().StaticCallee() == nil && !strings.HasPrefix(cn, "builtin:") {
+						out = append(out, via+"dynamic call "+cn)
+					}
+				}
+			}
+		})
+	}
+	walk(fn, depth, "")
+	return out
 }
